@@ -212,18 +212,29 @@ def contains_match(node: Node, pats: Iterable[ast.AST]) -> bool:
 
 
 def always_before(ctx: Ctx, fn: FunctionInfo, first: Callable[[Node], bool], then: Callable[[Node], bool]) -> list[Node]:
-    """Nodes satisfying ``then`` that are *not* preceded on every path by a node satisfying ``first``."""
-    did = Fact("did", "first", sticky=True)
-
-    def gen(n: Node):
-        return [did] if first(n) else []
-
-    ff = FactFlow(ctx.prog, fn, ctx.effects, extra_gen=gen)
+    """Nodes (of ``ctx.flow(fn).cfg``) satisfying ``then`` that are *not* preceded on every path from the function
+    entry by a node satisfying ``first``.  Must-dataflow of one boolean over the shared CFG (exception edges included)."""
+    cfg = ctx.flow(fn).cfg
+    did_in: dict[int, bool | None] = {n.id: None for n in cfg.nodes}
+    did_in[cfg.entry.id] = False
+    work = [cfg.entry]
+    is_first = {n.id: bool(first(n)) for n in cfg.nodes if n.kind in ("stmt", "test", "for", "with", "match")}
+    while work:
+        n = work.pop()
+        cur = did_in[n.id]
+        out = bool(cur) or is_first.get(n.id, False)
+        for s, _ in n.succ:
+            prev = did_in[s.id]
+            if prev is None:
+                did_in[s.id] = out
+                work.append(s)
+            elif prev and not out:
+                did_in[s.id] = False
+                work.append(s)
     bad = []
-    for n in ff.cfg.nodes:
-        if n.kind in ("stmt", "test", "for", "with") and then(n) and ff.reachable(n):
-            # the node itself may satisfy both (e.g. `x = f(g())`): `first` inside the same statement counts
-            if did.sig not in ff.facts_at(n) and not first(n):
+    for n in cfg.nodes:
+        if n.kind in ("stmt", "test", "for", "with", "match") and did_in[n.id] is not None and then(n):
+            if not did_in[n.id] and not is_first.get(n.id, False):
                 bad.append(n)
     return bad
 
@@ -591,3 +602,115 @@ def expand(expr: ast.AST, aliases: dict[str, ast.AST]) -> ast.AST:
 def xpath(expr: ast.AST, aliases: dict[str, ast.AST]) -> str | None:
     """Access path of ``expr`` after alias expansion."""
     return path_of(expand(expr, aliases))
+
+
+# ------------------------------------------------------------------------------------------
+# list "ingredients" along one path (what ends up in a returned / pushed list)
+# ------------------------------------------------------------------------------------------
+
+
+def ingredients_along(path_nodes: list[Node]) -> tuple[dict[str, set[str]], list[tuple[Node, set[str]]]]:
+    """Abstractly follows list-valued locals along one CFG path.
+
+    Returns (final environment name -> ingredient texts, [(return node, ingredients of returned value)]).
+    Ingredients are source texts of the non-local expressions that flow into the value: calls, attribute
+    paths, parameters.  `a + b`, `list(x)`, `[x, *y]`, `.append/.extend/.insert`, `+=` are followed.
+    """
+    env: dict[str, set[str]] = {}
+    rets: list[tuple[Node, set[str]]] = []
+
+    def ingr(e: ast.AST | None) -> set[str]:
+        if e is None:
+            return set()
+        if isinstance(e, ast.Name):
+            return (set(env[e.id]) | {e.id}) if e.id in env else {e.id}
+        if isinstance(e, ast.BinOp) and isinstance(e.op, ast.Add):
+            return ingr(e.left) | ingr(e.right)
+        if isinstance(e, (ast.List, ast.Tuple, ast.Set)):
+            out: set[str] = set()
+            for x in e.elts:
+                out |= ingr(x.value if isinstance(x, ast.Starred) else x)
+            return out
+        if isinstance(e, ast.IfExp):
+            return ingr(e.body) | ingr(e.orelse)
+        if isinstance(e, ast.BoolOp):
+            out = set()
+            for x in e.values:
+                out |= ingr(x)
+            return out
+        if isinstance(e, ast.Call):
+            fname = path_of(e.func)
+            if fname in ("list", "tuple", "sorted", "reversed") and len(e.args) == 1:
+                return ingr(e.args[0])
+            return {unparse(e)}
+        if isinstance(e, ast.Constant):
+            return set()
+        p = path_of(e)
+        if p is not None:
+            return {p}
+        return {unparse(e)}
+
+    for n in path_nodes:
+        a = n.ast
+        if n.kind != "stmt" or a is None:
+            continue
+        if isinstance(a, ast.Assign) and len(a.targets) == 1:
+            t = a.targets[0]
+            if isinstance(t, ast.Name):
+                env[t.id] = ingr(a.value)
+            elif isinstance(t, (ast.Tuple, ast.List)):
+                src = ingr(a.value)
+                for el in t.elts:
+                    if isinstance(el, ast.Name):
+                        env[el.id] = set(src) | {f"{unparse(a.value)}[{t.elts.index(el)}]"}
+        elif isinstance(a, ast.AnnAssign) and isinstance(a.target, ast.Name) and a.value is not None:
+            env[a.target.id] = ingr(a.value)
+        elif isinstance(a, ast.AugAssign) and isinstance(a.target, ast.Name):
+            env[a.target.id] = env.get(a.target.id, {a.target.id}) | ingr(a.value)
+        elif isinstance(a, ast.Expr) and isinstance(a.value, ast.Call) and isinstance(a.value.func, ast.Attribute):
+            c = a.value
+            if isinstance(c.func.value, ast.Name) and c.func.attr in ("append", "extend", "insert", "appendleft", "add", "update"):
+                nm = c.func.value.id
+                arg = c.args[-1] if c.args else None
+                env[nm] = env.get(nm, {nm}) | ingr(arg)
+        elif isinstance(a, ast.Return):
+            rets.append((n, ingr(a.value)))
+    return env, rets
+
+
+def increment_of(st: ast.AST | None, target_path: str):
+    """Signed constant step by which ``st`` changes ``target_path`` (`p += k`, `p -= k`, `p = p ± k`, `p = k + p`).
+
+    Returns None when ``st`` does not write ``target_path``; returns the string "other" for any other write.
+    """
+    if isinstance(st, ast.AugAssign) and path_of(st.target) == target_path:
+        try:
+            k = const_value_num(st.value)
+        except ValueError:
+            return "other"
+        if isinstance(st.op, ast.Add):
+            return k
+        if isinstance(st.op, ast.Sub):
+            return -k
+        return "other"
+    if isinstance(st, ast.Assign) and any(path_of(t) == target_path for t in st.targets):
+        v = st.value
+        if isinstance(v, ast.BinOp) and isinstance(v.op, (ast.Add, ast.Sub)):
+            try:
+                if path_of(v.left) == target_path:
+                    k = const_value_num(v.right)
+                    return k if isinstance(v.op, ast.Add) else -k
+                if path_of(v.right) == target_path and isinstance(v.op, ast.Add):
+                    return const_value_num(v.left)
+            except ValueError:
+                return "other"
+        return "other"
+    return None
+
+
+def const_value_num(node: ast.AST):
+    if isinstance(node, ast.Constant) and isinstance(node.value, (int, float)) and not isinstance(node.value, bool):
+        return node.value
+    if isinstance(node, ast.UnaryOp) and isinstance(node.op, ast.USub):
+        return -const_value_num(node.operand)
+    raise ValueError
